@@ -725,6 +725,9 @@ registry! {
     VecDeque<u32>; VecDeque<Option<String>>; LinkedList<i64>; LinkedList<ByteVec>;
     BTreeSet<u8>; BTreeSet<i32>; BTreeSet<String>; BTreeSet<Int>; BTreeSet<(u8, bool)>; BTreeSet<ByteVec>; BTreeSet<char>;
     #[enconly] Box<[u16]>;
+    // zero-sized elements (whatever a collection computes from size_of::<T>() or pre-allocates per element)
+    Vec<()>; VecDeque<PhantomData<u8>>; LinkedList<()>; BinaryHeap<()>; Vec<[u8; 0]>; Vec<[(); 2]>; [(); 3]; [PhantomData<u8>; 2];
+    BTreeMap<u8, ()>; HashMap<u16, ()>; Option<Vec<()>>; HashSet<()>; BTreeSet<()>; HashMap<(), ()>; BTreeMap<(), u8>; BinaryHeap<PhantomData<u8>>;
     // unordered (top level only)
     HashSet<i32>; HashSet<String>; HashSet<u64>; HashSet<(u8, bool)>;
     BinaryHeap<u8>; BinaryHeap<i64>; BinaryHeap<String>;
